@@ -49,7 +49,7 @@ PLAN["C03"] = dict(
 
 PLAN["C01"] = dict(
     level="exploration",
-    engines=["free-run + WGL per-key linearizability checker (native)"],
+    engines=["free-run + WGL per-key linearizability checker (native)", "serial token-passing scheduler: seeded, replayable schedules of small programs + the same checker (native)"],
     assumptions=[
         "tickets from one relaxed fetch_add counter taken before the call and after the return give a real-time order",
         "sub-histories of more than 256 calls or 2^21 search states are counted as unchecked, never as violations",
@@ -58,6 +58,7 @@ PLAN["C01"] = dict(
     require={"key_histories_checked": 500, "contended_key_histories": 20, "rounds_with_resize": 5, "rounds_with_tree_conversion": 5},
     jobs=lambda t: [
         J("freerun", "native", ["c01", "--rounds", q(t, 220, 5000)], shards=q(t, 8, 12), budget_s=q(t, 30, 600), parallel=q(t, 8, 12)),
+        J("serial", "native", ["c01", "--part", "serial", "--schedules", q(t, 1500, 60000)], shards=q(t, 8, 16), budget_s=q(t, 30, 600), parallel=q(t, 8, 16)),
     ],
 )
 
@@ -209,7 +210,7 @@ def miri_jobs(names, seeds_each, shards_each):
 
 PLAN["C11"] = dict(
     level="exploration",
-    engines=["Miri (deadlock detection, weak-memory emulation, seeded scheduler) on litmus programs", "quiescent lock-state audit of the free-run rounds (C05) and the parked-writer scenario of C12"],
+    engines=["Miri (deadlock detection, weak-memory emulation, seeded scheduler) on litmus programs", "serial token-passing scheduler with logical deadlock / livelock verdicts (native)", "quiescent lock-state audit of the free-run rounds (C05) and the parked-writer scenario of C12"],
     assumptions=[
         "liveness is restated as bounded progress: a finite program run by Miri's fair seeded scheduler ends, and no execution reaches a state in which every unfinished thread is blocked",
         "Miri explores one schedule per seed; quick is a smoke test, thorough the real exploration (the F6 lost wakeup needed seeds 16 and 131 of 384 on one program)",
@@ -219,6 +220,7 @@ PLAN["C11"] = dict(
     require_prefix={"miri_seeds_": 8},
     jobs=lambda t: miri_jobs(["tree-mix3", "tree-readers", "init-race", "grow"], q(t, 12, 256), q(t, 4, 16))
     + miri_jobs(["tree-samebin-mix4", "tree-grow-from-0", "list-mix4"], q(t, 4, 128), q(t, 1, 16))
+    + [J("serial", "native", ["c11", "--schedules", q(t, 1500, 60000)], shards=q(t, 8, 16), budget_s=q(t, 30, 600), parallel=q(t, 8, 16))]
     + [J("f6-regression-seed16", "miri", LIT["tree-mix3"], shards=1, seeds=(16, 17), budget_s=90, absolute_seeds=True),
        J("f6-regression-seed131", "miri", LIT["tree-mix3"], shards=1, seeds=(131, 132), budget_s=90, absolute_seeds=True)],
 )
